@@ -1118,3 +1118,6 @@ class ArrayBuilder(object):
 @_register
 class VirtualArray(Content):
     pass
+
+
+import akshim.virtual  # noqa: E402,F401  - replaces the placeholder above (and adds ArrayGenerator, ArrayCache, partitions)
